@@ -54,6 +54,10 @@ type parked struct {
 	kind    string // "prepare" | "tx-prepare" | "exec" | "query"
 	text    string
 	release chan error // nil = proceed, non-nil = fail the call with it
+	// lock wait: the driver does not complete this (autocommit) call while another goroutine's
+	// transaction is open, as a database does for a statement that waits for a row lock
+	held    bool
+	decided bool
 }
 
 type controller struct {
@@ -65,6 +69,18 @@ type controller struct {
 	done     bool // after the schedule: nothing parks any more
 	badconn  map[int]int // gid -> remaining driver calls to fail with ErrBadConn
 	faults   []fault
+	inTx     [8]int32 // per goroutine: inside the body of a Transaction block (open transaction)
+	finished [8]int32
+}
+
+// otherTxOpen reports whether a goroutine other than gid is inside an open transaction.
+func (c *controller) otherTxOpen(gid int) bool {
+	for g := 1; g < len(c.inTx); g++ {
+		if g != gid && atomic.LoadInt32(&c.inTx[g]) == 1 && atomic.LoadInt32(&c.finished[g]) == 0 {
+			return true
+		}
+	}
+	return false
 }
 
 // fault is one injected failure: which goroutine's call, when, what, on which text.
@@ -398,6 +414,7 @@ func runCase(rt *rapid.T) {
 					panics = append(panics, fmt.Sprintf("goroutine g%d panicked: %v\n%s", gid, p, buf[:n]))
 					resMu.Unlock()
 				}
+				atomic.StoreInt32(&ctl.finished[gid], 1)
 				atomic.AddInt32(&ctl.live, -1)
 				atomic.AddInt64(&ctl.progress, 1)
 			}()
@@ -420,6 +437,8 @@ func runCase(rt *rapid.T) {
 				case "tx":
 					start := ctl.tick()
 					err := e.handle(o.Via, ctx).Transaction(func(tx *gorm.DB) error {
+						atomic.StoreInt32(&ctl.inTx[gid], 1)
+						defer atomic.StoreInt32(&ctl.inTx[gid], 0)
 						for _, s := range o.Sub {
 							r := opResult{gid: gid, op: s, inTx: true, start: ctl.tick()}
 							r.err = tx.Raw(texts[s.Text], s.Arg).Scan(&r.val).Error
@@ -454,7 +473,7 @@ func runCase(rt *rapid.T) {
 		err        error
 		gid        int
 	}
-	steps, sameTextWindow, faultsDrawn := 0, false, 0
+	steps, sameTextWindow, faultsDrawn, holds := 0, false, 0, 0
 	lastProgress := atomic.LoadInt64(&ctl.progress)
 	lastChange := time.Now()
 	for {
@@ -498,9 +517,41 @@ func runCase(rt *rapid.T) {
 			}
 		}
 		sort.Slice(ctl.parkedQ, func(i, j int) bool { return ctl.parkedQ[i].gid < ctl.parkedQ[j].gid })
-		idx := 0
-		if n > 1 {
-			idx = rapid.IntRange(0, n-1).Draw(rt, "release")
+		// decide once per parked autocommit exec/query whether it "waits for a lock" held by another
+		// goroutine's open transaction; such a call is not released while that transaction is open.
+		// Calls of goroutines that are themselves in a transaction are never held, so on a correct
+		// cache every transaction can finish and every held call is eventually released.
+		var eligible []int
+		for i, q := range ctl.parkedQ {
+			if !q.decided {
+				q.decided = true
+				if (q.kind == "exec" || q.kind == "query") && atomic.LoadInt32(&ctl.inTx[q.gid]) == 0 && ctl.otherTxOpen(q.gid) {
+					q.held = rapid.IntRange(0, 2).Draw(rt, "lockwait") == 0
+					if q.held {
+						holds++
+					}
+				}
+			}
+			if q.held && ctl.otherTxOpen(q.gid) {
+				continue
+			}
+			eligible = append(eligible, i)
+		}
+		if len(eligible) == 0 {
+			ctl.mu.Unlock()
+			if time.Since(lastChange) > 10*time.Second {
+				buf := make([]byte, 1<<16)
+				k := runtime.Stack(buf, true)
+				fmt.Println("VERIF-FAILURE-BEGIN\nC14 violated: deadlock - calls waiting for a lock held by an open transaction, and that transaction cannot finish; case: " + desc.String() + "\nVERIF-FAILURE-END")
+				rt.Fatalf("C14 violated: deadlock - %d goroutine(s) unfinished: the only parked driver calls wait for a lock held by another goroutine's open transaction, and that transaction makes no progress for 10s\ncase: %s\n%s",
+					atomic.LoadInt32(&ctl.live), desc.String(), buf[:k])
+			}
+			time.Sleep(200 * time.Microsecond)
+			continue
+		}
+		idx := eligible[0]
+		if len(eligible) > 1 {
+			idx = eligible[rapid.IntRange(0, len(eligible)-1).Draw(rt, "release")]
 		}
 		p := ctl.parkedQ[idx]
 		ctl.parkedQ = append(ctl.parkedQ[:idx], ctl.parkedQ[idx+1:]...)
@@ -825,6 +876,9 @@ func runCase(rt *rapid.T) {
 	}
 	if faultsDrawn > 0 {
 		cl = append(cl, "has:fault")
+	}
+	if holds > 0 {
+		cl = append(cl, "has:lock-wait")
 	}
 	if sameTextWindow {
 		cl = append(cl, "window:same-text-overlap")
